@@ -671,7 +671,7 @@ pub fn run(ctx: Ctx) -> Report {
 pub fn meta() -> CheckMeta {
     CheckMeta {
         level: "fault_enumeration",
-        rule: format!("fault run = (scenario, side, cause, position[, forced pre-emption]). Scenarios: {}. A clean recording of each scenario gives the frame boundaries of both directions; offset causes (clean EOF, UnexpectedEof, read error, two write errors, black-hole for the heartbeat give-up) are injected at every boundary, boundary+1/+3/+7 and mid-payload; step causes (peer Alert, owner close(), pool reaper close) after every logical step; each fired run is repeated with a forced pre-emption at the close()/handle_io_error scheduling points (thorough: 4 yield lengths and sampled write-path points). Oracle, {D} virtual seconds after the cause: is_closed, shutdown/drop recorded on the transport, every blocked reader / in-flight writer / pending open / close call completed, pending opens not Ok, a later write and a later open fail promptly, no session task alive, stream tables empty. distinct_nontrivial = distinct fault runs whose fault actually fired.", format!("{} + 40 generated ones (0-6 streams, 0-5 chunks of 1-70000 bytes, either data path, readers / back-pressure / keep-alive / answered opens / default padding / fragmenting transports at random; quick uses 3 of them)", SCENARIOS.iter().map(|s| s.name).collect::<Vec<_>>().join(", "))),
+        rule: format!("fault run = (scenario, side, cause, position[, forced pre-emption]). Scenarios: {}. A clean recording of each scenario gives the frame boundaries of both directions; offset causes (clean EOF, UnexpectedEof, read error, two write errors, black-hole for the heartbeat give-up) are injected at every boundary, boundary+1/+3/+7 and mid-payload; step causes (peer Alert, owner close(), pool reaper close) after every logical step; each fired run is repeated with a forced pre-emption at the close()/handle_io_error scheduling points (thorough: 4 yield lengths and sampled write-path points). Oracle, {D} virtual seconds after the cause: is_closed, shutdown/drop recorded on the transport, every blocked reader / in-flight writer / pending open / close call completed, pending opens not Ok, a later write and a later open fail promptly, no session task alive, stream tables empty. distinct_nontrivial = distinct fault runs whose fault actually fired. The peer's Alert carries, depending on the position, no text, ASCII, multi-byte text whole or cut inside a character, bytes that are not text, or 300 bytes.", format!("{} + 40 generated ones (0-6 streams, 0-5 chunks of 1-70000 bytes, either data path, readers / back-pressure / keep-alive / answered opens / default padding / fragmenting transports at random; quick uses 3 of them)", SCENARIOS.iter().map(|s| s.name).collect::<Vec<_>>().join(", "))),
         assumptions: vec!["bounded progress: a release later than 120 virtual seconds counts as never; an earlier one is not distinguished from immediate".into(), "tokio's paused clock advances only when every task is idle".into()],
         floors: vec![("faults_fired", 300), ("waiters_observed", 600), ("fired_clean_eof", 20), ("fired_write_error_broken_pipe", 20), ("fired_peer_alert", 10), ("fired_owner_close", 10), ("fired_heartbeat_give_up", 5), ("fired_reaper_close", 5)],
         exhaustive: false,
